@@ -24,6 +24,9 @@ package main
 //               declarations, blocks; `if v, ok := x.(I); ok {…}` where no operand kind
 //               implements I; error values built by errors.New / fmt.Errorf / fmt.Sprintf
 //               or read from a package variable of type error
+// Identity: operands are translated as VALUES. Every construct that could observe which object
+// holds a value is refused (== / != on Sexp or *SexpT references, comparison with nil, maps
+// keyed by them, passing them to untranslated functions, field writes), never skipped.
 // Not in the subset (refused): loops, goto, labels, fallthrough, defer, go, closures, slices,
 // maps, strings as data, pointers to anything else, field writes, method values, generic
 // code, recursion, float ==/<=/>=/unary minus/non-zero float constants, float → integer
@@ -1589,8 +1592,12 @@ func (c *ntCtx) convert(n ast.Node, term string, from, to ntType) (string, error
 func (c *ntCtx) binop(n ast.Node, op token.Token, l string, lt ntType, r string, rt ntType, rconst constant.Value) (string, ntType, []string, error) {
 	none := ntType{}
 	boolT := ntType{k: "bool"}
-	if lt.ptr != "" || rt.ptr != "" {
-		return "", none, nil, c.refuse(n, "operator %s on pointers", op)
+	// Identity is not expressible: a Sexp / *SexpT is translated as the VALUE it holds, so any
+	// operator applied to the references themselves (a == b, a != nil, …) must be refused —
+	// never skipped (seeded C07-m3: `if a == b { return 0, nil }` in Compare makes a NaN object
+	// equal to itself).
+	if lt.ptr != "" || rt.ptr != "" || lt.k == "sx" || rt.k == "sx" {
+		return "", none, nil, c.refuse(n, "operator %s on Sexp references (object identity has no counterpart in the value-level translation)", op)
 	}
 	L, R := ntParen(l), ntParen(r)
 	if op == token.SHL || op == token.SHR {
